@@ -109,3 +109,18 @@ func specSubSat(cur uint64, n int) uint64 {
 //@ func reassemblyQueue.forwardTSNForOrderedMID
 //@   ensures#cursor-moves-forward-only{C07,C16} r.nextMID == ite(old(sna32LTE(r.nextMID, lastMID)), lastMID+1, old(r.nextMID))
 //@   tags C07
+
+// ---- the three sort helpers: the comparator handed to the library sort is a consistent ordering (obligation safe#sortcmp),
+// ---- and the result is in serial-number order of the intended key ----
+
+//@ func sortChunksByTSN
+//@   safety C01 C16
+//@   ensures#fragments-in-tsn-order{C01,C16} forall i int :: 0 <= i && i < len(a)-1 ==> !sna32LT(a[i+1].tsn, a[i].tsn)
+
+//@ func sortChunksByFSN
+//@   safety C17 C16
+//@   ensures#fragments-in-fsn-order{C17,C16} forall i int :: 0 <= i && i < len(a)-1 ==> !sna32LT(a[i+1].fragmentSequenceNumber, a[i].fragmentSequenceNumber)
+
+//@ func sortChunksBySSN
+//@   safety C01
+//@   ensures#messages-in-ssn-order{C01} forall i int :: 0 <= i && i < len(a)-1 ==> !sna16LT(a[i+1].ssn, a[i].ssn)
